@@ -27,7 +27,16 @@ func NewLogHist(b int, m float64, max float64) *LogHist {
 }
 
 func (h *LogHist) bin(x float64) int {
-	return int(math.Floor(h.mOverLogb * math.Log(x)))
+	b := math.Floor(h.mOverLogb * math.Log(x))
+	// Clamp before converting: converting a float64 outside the
+	// range of int is implementation-defined and would count huge
+	// values and +Inf as underflow.
+	if b >= float64(len(h.bins)) {
+		return len(h.bins)
+	} else if b < 0 {
+		return -1
+	}
+	return int(b)
 }
 
 func (h *LogHist) Add(x float64) {
